@@ -53,12 +53,12 @@ pub open spec fn lookup_spec<'a>(t: LookupTable<'a>, key: Seq<char>) -> Option<E
         Some(match gmap(*t.global_table->0)[key] { GlobalEntry::Type(x) => Entry::Type(&x), GlobalEntry::Procedure(p) => Entry::Procedure(&p) })
     } else { None }
 }
-//~assume LookupTable::lookup (closures over two HashMap lookups) returns lookup_spec: local scope first, then global
+// LookupTable::lookup runs verbatim (its Option adapters inlined as their std definitions, R9/R14) on top of the map contracts of the two tables
 //@extract spl_frontend/src/table.rs :: impl<'a> LookupTable<'a> :: fn lookup
+//@ rewrite map_or_else_some map_entry_from map_inline and_then_inline
 //@ ret r
 //@ sig
-        ensures r == lookup_spec(*self, key@),
-//@ assume_body fn lookup
+        ensures r == lookup_spec(*self, key@), //# LookupTable::lookup::local_scope_before_global_scope
 //@end
 
 // ---------- the tables as abstract maps: "first declaration wins"
